@@ -12,6 +12,7 @@ SPEC = {
         "each under its own option and with that option's payload, and the group id is set while the process is "
         "still privileged (no path from setuid to setgid)."
         " Also: PopenConfig::default() requests no executable/env/cwd/uid/gid/pgid; the chdir/setuid/setgid/setpgid wrappers call libc with their argument on every path. Thorough tier, windows: format_env_block appends name, '=', value, NUL per kept pair and one final NUL, with the same reverse/filter/reverse last-wins idiom over ASCII-uppercased names."
+        " Every name and value of the configured environment passes the NUL-checking constructor in a loop before format_env removes shadowed duplicates (reported D17). Thorough tier, windows: the environment is scanned for NUL before CreateProcess and an empty environment still yields two NULs (reported D18, D19)."
     ),
     "not_decided": "format_env's last-wins de-duplication and KEY=VALUE joining as an algorithm over run-time data; byte-exact "
                    "survival of arbitrary OsStr through the kernel; an `executable` containing NUL (the statement's NUL clause names "
@@ -150,6 +151,37 @@ def run(ctx):
     ctx.floor("R06.1", "format_env joining sites", joins, 1)
 
     dedup_idiom(ctx, prog, fe, "R06.6", "format_env")
+
+    # ---- R06.2 (pre-check) every entry of the environment list is NUL-checked, also one that a later duplicate replaces -------------
+    # format_env drops every entry that has a later entry of the same name; the NUL check of CVec::new runs on what is left, so a value
+    # containing NUL would be accepted or rejected depending on its position among its duplicates unless the list is checked first
+    os_start_ = fm.fn
+    Tos = fm.T
+    fe_calls = [bb for bb, t in os_start_.calls() if M.callee_str(t["f"]) == fe.path or any(Tos.operand(a) == ("fnitem", fe.path) for a in t["args"])]
+    envf = lambda u: u[0] == "field" and u[2] == "env" and M.contains(u, lambda w: w[0] == "param")
+    loops_ = M.sccs(os_start_)
+    comps = {}
+    for bb, t in os_start_.calls():
+        if M.callee_str(t["f"]) == "posix::os_to_cstring" and bb in fm.pre_region:
+            a = Tos.operand(t["args"][0])
+            if M.contains(a, envf):
+                x = a
+                VIEW = ("<std::ffi::OsString as std::ops::Deref>::deref", "<std::ffi::OsString as std::convert::AsRef<std::ffi::OsStr>>::as_ref", "std::ffi::OsString::as_os_str")
+                while x[0] in ("deref", "ref") or (x[0] == "call" and x[1] in VIEW and x[2]):
+                    x = x[1] if x[0] in ("deref", "ref") else x[2][0]
+                if x[0] == "field" and x[2] in ("0", "1") and any(bb in l for l in loops_) and try_err_edges(os_start_, Tos, lambda c, bb=bb: c[3] == bb):
+                    comps.setdefault(x[2], []).append(bb)
+    okn = set(comps) == {"0", "1"} and bool(fe_calls)
+    if okn:
+        lp = next(l for l in loops_ if comps["0"][0] in l)
+        # format_env is reached only through the checking loop, or with no environment configured at all (the None edge of config.env)
+        none_e = variant_edges(os_start_, Tos, lambda t_: M.contains(t_, envf), 0, [0, 1], "std::option::Option<")
+        reach_ = os_start_.reachable(0, removed_blocks=[min(lp)], removed_edges=set(none_e))
+        okn = all(b in lp for v in comps.values() for b in v) and not any(fb in reach_ for fb in fe_calls) and not any(fb in lp for fb in fe_calls)
+    ctx.ob("R06.2", "env-entries-nul-checked-before-dedup", okn, os_start_.loc(fe_calls[0] if fe_calls else 0),
+           "before format_env removes shadowed duplicates, a loop over the configured environment must pass every name and every value through the "
+           "NUL-checking constructor (os_to_cstring(..)?): otherwise `[(K, \"a\\0b\"), (K, \"fine\")]` is accepted while `[(K, \"a\\0b\")]` is refused "
+           "(components checked: %s)" % sorted(comps))
 
     # ---- R06.2 C strings only from the NUL-checking constructor -------------
     bad_ctors = ("from_vec_unchecked", "from_raw", "from_bytes_with_nul_unchecked", "from_vec_with_nul_unchecked", "from_ptr")
